@@ -142,18 +142,21 @@ package validators
 //@ # at most the returned amount. (Payments, the zeroing of the accrued rewards and the remainder sent to the
 //@ # total-slashed pool are all reported to the ledger by the functions called - proved there.)
 //@ func (*Validators).PayRewardsV5Fix
-//@   serves C19 C01
+//@   serves C19 C01 C07
+//@   # C07: no division by zero, no index out of range, no nil dereference on the payout path (the deliberate
+//@   # integrity halt 'Negative remainder' is not covered: it needs the stake-sum invariant of the candidates module)
+//@   nopanic bigdivzero index nil nilmap slice
 //@   let ck = v.bus.checker
 //@   requires v != nil && v.bus != nil && allocated(v.list)
 //@   # wiring (assumed state invariant): the app module reports to the same ledger
 //@   requires wiring: appChecker(v.bus.app) == v.bus.checker
-//@   requires wf: forall i int :: 0 <= i && i < len(v.list) ==> v.list[i] != nil && allocated(v.list[i]) && v.list[i].bus == v.bus && v.list[i].accumReward != nil && allocated(v.list[i].accumReward) && v.list[i].accumReward.val >= 0 && v.list[i].totalStake != nil && allocated(v.list[i].totalStake) && v.list[i].totalStake.val > 0
+//@   requires wf: forall i int :: 0 <= i && i < len(v.list) ==> v.list[i] != nil && allocated(v.list[i]) && v.list[i].bus == v.bus && v.list[i].accumReward != nil && allocated(v.list[i].accumReward) && v.list[i].accumReward.val >= 0 && v.list[i].totalStake != nil && allocated(v.list[i].totalStake) && v.list[i].totalStake.val >= 0
 //@   requires distinct: forall i int, j int :: 0 <= i && i < j && j < len(v.list) ==> v.list[i] != v.list[j] && v.list[i].accumReward != v.list[j].accumReward
 //@   ensures [C19,C01] neveroverpaid: moreRewards != nil && ledgerDelta(ck, 0) - old(ledgerDelta(ck, 0)) <= moreRewards.val
 //@   ensures othercoins: forall k types.CoinID :: k != 0 ==> ledgerDelta(ck, k) == old(ledgerDelta(ck, k))
 //@   local vals []*Validator
-//@   loop 0 invariant idx: -1 <= rangeindex && vals == v.list && moreRewards != nil && fresh(moreRewards) && moreRewards.val == 0 && moreRewards != totalAccumRewards
-//@   loop 1 invariant idx: -1 <= rangeindex && vals == v.list && moreRewards != nil && fresh(moreRewards) && moreRewards.val == 0 && moreRewards != totalStakes
+//@   loop 0 invariant idx: -1 <= rangeindex && (rangeindex < len(vals) || (rangeindex == -1 && len(vals) == 0)) && vals == v.list && moreRewards != nil && fresh(moreRewards) && moreRewards.val == 0 && moreRewards != totalAccumRewards
+//@   loop 1 invariant idx: -1 <= rangeindex && (rangeindex < len(vals) || (rangeindex == -1 && len(vals) == 0)) && vals == v.list && moreRewards != nil && fresh(moreRewards) && moreRewards.val == 0 && moreRewards != totalStakes
 //@   loop 2 invariant idx: -1 <= rangeindex && (rangeindex < len(vals) || (rangeindex == -1 && len(vals) == 0)) && vals == v.list && v.list == old(v.list) && moreRewards != nil && fresh(moreRewards)
 //@   loop 2 invariant todo: forall i int :: rangeindex < i && i < len(vals) ==> vals[i].accumReward == old(vals[i].accumReward) && vals[i].totalStake == old(vals[i].totalStake) && vals[i].bus == v.bus
 //@   loop 2 invariant todovalues: forall i int :: rangeindex < i && i < len(vals) ==> vals[i].accumReward != nil && allocated(vals[i].accumReward) && vals[i].accumReward.val >= 0
